@@ -141,12 +141,31 @@ type shRender struct {
 	// the shape does: compound conditions whose other operand is a constant-valued comparison over locals
 	// (fused by the optimizer), case lists mixing literals and expressions, a loop variable redeclared in the body
 	style *core.Rng
+	// xsShadowed > 0 inside a range loop whose value variable is called xs like the slice it ranges over
+	xsShadowed int
+}
+
+func shHasRange(b []*shNode) bool {
+	for _, n := range b {
+		if n.kind == "range" || n.kind == "rangekv" {
+			return true
+		}
+		for _, sub := range n.blocks {
+			if shHasRange(sub) {
+				return true
+			}
+		}
+	}
+	return false
 }
 
 // cond spells a condition with the truth value of one nx() call.
 func (r *shRender) cond() string {
 	if r.style == nil {
 		return "nx()"
+	}
+	if r.xsShadowed > 0 {
+		return core.Pick(r.style, []string{"nx()", "one > 0 && nx()", "nx() && xs > one", "nx() || xs < zero"})
 	}
 	return core.Pick(r.style, []string{"nx()", "nx()", "one > 0 && nx()", "nx() && n+1 > one", "zero > 0 || nx()", "nx() || n-1 > n", "nx() && xs[0] > one", "!(!nx() || n*2 < one)", "n+1 > one && nx() && one-1 < n"})
 }
@@ -249,6 +268,16 @@ func (r *shRender) stmt(s *shNode, ind int) {
 			return fmt.Sprintf("for k%d, v%d := range xs { _, _ = k%d, v%d;", r.nvar, r.nvar, r.nvar, r.nvar)
 		}
 		body := s.blocks[0]
+		if r.style != nil && s.kind == "rangekv" && !shHasRange(body) && r.style.Chance(1, 3) {
+			// the value variable has the name of the slice ranged over: the operand is the outer xs, the body sees the element
+			r.nvar++
+			r.line(ind, "for k%d, xs := range xs { _, _ = k%d, xs;", r.nvar, r.nvar)
+			r.xsShadowed++
+			r.block(body, ind+1)
+			r.xsShadowed--
+			r.line(ind, "}")
+			break
+		}
 		if r.style != nil && len(body) > 0 && (body[0].kind == "range" || body[0].kind == "rangekv") && r.style.Bool() {
 			// two range loops that start on one source line
 			r.line(ind, "%s %s", hdr(s), hdr(body[0]))
@@ -272,10 +301,15 @@ func (r *shRender) stmt(s *shNode, ind int) {
 			isDef := s.defPos == i
 			if isDef {
 				r.line(ind, "default:")
+				if r.style != nil && r.style.Chance(1, 2) {
+					// names declared in the default clause are its own: the other clauses' tests and bodies see the outer ones
+					r.line(ind+1, "n, one, zero := n+95, one, zero")
+					r.line(ind+1, "_, _, _ = n, one, zero")
+				}
 			} else {
 				switch {
 				case s.tagged && s.multi && r.style != nil:
-					r.line(ind, "case %s:", [][]string{{"1, 2", "1, one+1", "one, 2", "zero+1, 2, n", "7, one, n-3"}, {"0", "zero", "one-1, n"}, {"3", "one+2", "n, 3"}}[caseNo%3][r.style.Intn(3)])
+					r.line(ind, "case %s:", [][]string{{"1, 2", "1, one+1", "one, 2", "zero+1, 2, n", "7, one, n-3", "tv(7001, 1), tv(7002, 2)", "tv(7003, 2), 1, tv(7004, 9)"}, {"0", "zero", "one-1, n", "tv(7005, 8), tv(7006, 0)", "tv(7007, 0), tv(7008, 0)"}, {"3", "one+2", "n, 3", "tv(7009, 3), tv(7010, 4)", "tv(7011, 4), tv(7012, 3), n"}}[caseNo%3][r.style.Intn(5)])
 				case s.tagged && s.multi:
 					r.line(ind, "case %s:", []string{"1, 2", "0", "3"}[caseNo%3])
 				case s.tagged && r.style != nil && r.style.Chance(1, 3):
@@ -283,7 +317,7 @@ func (r *shRender) stmt(s *shNode, ind int) {
 				case s.tagged:
 					r.line(ind, "case %d:", caseNo)
 				case s.multi && r.style != nil:
-					r.line(ind, "case %s:", core.Pick(r.style, []string{"nx(), nx()", "n+1 < one, nx(), nx()", "nx(), zero > one, nx()", "nx(), nx(), n*2 < n", "false, nx(), nx() && one > zero"}))
+					r.line(ind, "case %s:", core.Pick(r.style, []string{"nx(), nx()", "n+1 < one, nx(), nx()", "nx(), zero > one, nx()", "nx(), nx(), n*2 < n", "false, nx(), nx() && one > zero", "tb(7101), tb(7102)", "tb(7103), nx(), tb(7104)", "nx(), tb(7105)"}))
 				case s.multi:
 					r.line(ind, "case nx(), nx():")
 				default:
@@ -327,6 +361,16 @@ func ti() int {
 
 func tr(i int) {
 	fmt.Println(i)
+}
+
+func tb(i int) bool {
+	tr(i)
+	return nx()
+}
+
+func tv(i int, v int) int {
+	tr(i)
+	return v
 }
 
 func run(id string, t int, tab []bool, f func()) {
@@ -438,7 +482,7 @@ func c06Random(rng *core.Rng, size int, ctx shCtx, depth int) []*shNode {
 
 func runC06(r *core.Run) {
 	maxSize := r.N(3, 4)
-	r.SetRule(fmt.Sprintf("shape functions built from T (trace point), break, continue, return, if / if-else / if-else-if-else, the three for forms, range (with and without variables), tagged and tagless switch with 1-2 cases, multi-value cases and default first/middle/last/absent; each shape also in a varied spelling (compound && / || conditions whose other operand is a comparison over locals, case lists mixing literals and expressions of different length, a loop variable redeclared in the body); every shape of size <= %d is enumerated, larger ones (size <= 25, depth <= 6) sampled; each runs under 4 condition tables. non-trivial = accepted by Go and printed at least one trace line under some table; distinct by shape text", maxSize))
+	r.SetRule(fmt.Sprintf("shape functions built from T (trace point), break, continue, return, if / if-else / if-else-if-else, the three for forms, range (with and without variables), tagged and tagless switch with 1-2 cases, multi-value cases and default first/middle/last/absent; each shape also in a varied spelling (compound && / || conditions whose other operand is a comparison over locals, case lists mixing literals and expressions of different length, a loop variable redeclared in the body, a range value variable named like the slice ranged over, names declared again inside a default clause, case lists of calls that leave a trace so that the order and number of evaluations shows); every shape of size <= %d is enumerated, larger ones (size <= 25, depth <= 6) sampled; each runs under 4 condition tables. non-trivial = accepted by Go and printed at least one trace line under some table; distinct by shape text", maxSize))
 	r.Assume("Go toolchain (GOARCH=386) as the reference; conditions come from a bool table through a function with a fuel counter, so every loop terminates on both sides")
 	var cases []packedCase
 	var shapes [][]*shNode
